@@ -286,5 +286,13 @@ def model_check_graph(g: dict, outputs: list):
                 problems.append(f"fused task {k!r}: member {owner!r} refers to {ref!r} which is neither a member nor a declared dependency")
             if root not in internal:
                 problems.append(f"fused task {k!r}: root {root!r} undefined")
+            # placeholder "_j" must stand for the j-th positional dependency of the fused task
+            deps = list(v[3:])
+            for kk, vv in internal.items():
+                if isinstance(vv, str) and vv.startswith("_") and vv[1:].isdigit():
+                    j = int(vv[1:])
+                    if j >= len(deps) or deps[j] != kk:
+                        problems.append(f"fused task {k!r}: sub-graph key {kk!r} is aliased to placeholder {vv} but positional dependency {j} is {deps[j] if j < len(deps) else None!r}")
+                        break
     req = check_order_requests(refs, order if not cyc else list(g))
     return problems, req, refs
